@@ -64,6 +64,22 @@ func mags(tier string) []uint64 {
 		922337203685477580, 9223372036854775800, 9223372036854775799, 18446744073709551610} {
 		add(v)
 	}
+	// the largest values that can still be scaled by 10^k within 64 and 63 bits, and their
+	// neighbours: where code that scales before comparing or printing has to switch methods
+	q64, q63 := uint64(1<<64-1), uint64(1<<63-1)
+	for k := 1; k <= 19; k++ {
+		q64 /= 10
+		q63 /= 10
+		for _, q := range []uint64{q64, q63} {
+			add(q)
+			add(q + 1)
+			if tier == "thorough" {
+				add(q - 1)
+				add(q + 2)
+				add(q + 100)
+			}
+		}
+	}
 	if tier == "thorough" {
 		for k := uint(1); k < 64; k++ {
 			add(1<<k - 1)
